@@ -41,7 +41,7 @@ def rule_writers(rep: Report, repo: Repo) -> None:
             fresh = any(ch not in alpha for ch in fixed)
             # a counter that is incremented right after the write makes the names distinct
             holder = repo.func(rel, ('PreprocessorData.' if rel == PRE else 'BinaryData.') + fn)
-            counters = [norm(s.target) for s in holder.body if isinstance(s, ast.AugAssign) and norm(s.value) == '1']
+            counters = [norm(s.target) for s in ast.walk(holder) if isinstance(s, ast.AugAssign) and isinstance(s.op, ast.Add) and norm(s.value) == '1' and norm(s.target).startswith('self.')]
             counted = any(c in norm(key) for c in counters)
             rep.check(fresh and counted, 'C16.WRITERS', fn, f'name {norm(key)[:60]}: non-identifier char={fresh}, counter {counters} in name={counted}', site,
                       expected='lexer-impossible prefix + running counter')
@@ -232,8 +232,30 @@ def rule_wflip_labels(rep: Report, repo: Repo) -> None:
     ASM_ = 'flipjump/assembler/assembler.py'
     fn = repo.func(ASM_, 'BinaryData.insert_wflip_ops')
     from ..pyfacts import resolve_names as _rn
-    # the label helpers are found by what they do, not by name: methods of the class that store one of their parameters under self.labels[..]
     cls = next(c for c in repo.mod(ASM_).body if isinstance(c, ast.ClassDef) and c.name == 'BinaryData')
+    gs = next((m for m in cls.body if isinstance(m, ast.FunctionDef) and m.name == 'get_wflip_spot'), None)
+    if gs is None:
+        raise AnalysisError('C16.WFLIP-LABEL: BinaryData.get_wflip_spot not found')
+    # the spot record: field order from its class (dataclass / NamedTuple), roles from the constructor call of the wflip-area branch
+    ctor = [c for c in ast.walk(gs) if isinstance(c, ast.Call) and isinstance(c.func, ast.Name) and c.func.id[:1].isupper() and len(c.args) + len(c.keywords) == 3]
+    rec = next((c for c in repo.mod(ASM_).body if isinstance(c, ast.ClassDef) and ctor and c.name == ctor[0].func.id), None)       # type: ignore[attr-defined]
+    if rec is None:
+        raise AnalysisError('C16.WFLIP-LABEL: the spot record built by get_wflip_spot was not found')
+    fields = [st.target.id for st in rec.body if isinstance(st, ast.AnnAssign) and isinstance(st.target, ast.Name)]
+    addr_i = list_i = None
+    for c in ctor:
+        args = {i: _rn(gs, a_) for i, a_ in enumerate(c.args)}
+        args.update({fields.index(k.arg): _rn(gs, k.value) for k in c.keywords if k.arg in fields})
+        for i, a_ in args.items():
+            if norm(a_) == 'self.next_wflip_address':
+                addr_i = i
+            if norm(a_) == 'self.wflip_words':
+                list_i = i
+    if addr_i is None or list_i is None or len(fields) != 3:
+        raise AnalysisError(f'C16.WFLIP-LABEL: roles of the spot record fields {fields} not recognised')
+    addr_f, list_f = fields[addr_i], fields[list_i]
+    # the label writers are found by what they do, not by name: methods of the class that store, under self.labels[..], a parameter or
+    # the address field of a parameter
     writers = {}
     for m in [m for m in cls.body if isinstance(m, ast.FunctionDef)]:
         params = [a.arg for a in m.args.args][1:]
@@ -241,35 +263,47 @@ def rule_wflip_labels(rep: Report, repo: Repo) -> None:
             if isinstance(a, ast.Assign) and any(isinstance(t, ast.Subscript) and norm(t.value) == 'self.labels' for t in a.targets):
                 v = _rn(m, a.value)
                 if isinstance(v, ast.Name) and v.id in params:
-                    writers[m.name] = params.index(v.id)
-    labels = []                 # (site node, address expression)
+                    writers[m.name] = (params.index(v.id), params, False)
+                elif isinstance(v, ast.Attribute) and v.attr == addr_f and isinstance(v.value, ast.Name) and v.value.id in params:
+                    writers[m.name] = (params.index(v.value.id), params, True)
+    labels = []                 # (site node, address expression, the expression is the spot itself)
     for c in ast.walk(fn):
         if isinstance(c, ast.Call) and dotted(c.func).startswith('self.') and dotted(c.func)[5:] in writers:
-            i = writers[dotted(c.func)[5:]]
-            pname = [a.arg for a in next(m for m in cls.body if isinstance(m, ast.FunctionDef) and m.name == dotted(c.func)[5:]).args.args][1:][i]
-            e = c.args[i] if i < len(c.args) else next((k.value for k in c.keywords if k.arg == pname), None)
+            i, params, is_spot = writers[dotted(c.func)[5:]]
+            e = c.args[i] if i < len(c.args) else next((k.value for k in c.keywords if k.arg == params[i]), None)
             if e is not None:
-                labels.append((c, e))
+                labels.append((c, e, is_spot))
         elif isinstance(c, ast.Assign) and any(isinstance(t, ast.Subscript) and norm(t.value) == 'self.labels' for t in c.targets):
-            labels.append((c, c.value))
+            labels.append((c, c.value, False))
     if not labels:
         raise AnalysisError('C16.WFLIP-LABEL: insert_wflip_ops inserts no wflip label (a store into self.labels, directly or through a method of BinaryData, expected)')
-    spots = {norm(t) for a in ast.walk(fn) if isinstance(a, ast.Assign) and isinstance(a.value, ast.Call) and dotted(a.value.func).endswith('get_wflip_spot')
-             for t in a.targets}
-    for c, e in labels:
-        arg = _rn(fn, e)                # `addr = spot.address` ... label(addr) reads label(spot.address)
+    # the spots taken in this function: `s = self.get_wflip_spot()` (address s.<address>, list s.<list>) or the record unpacked into names
+    spot_addr, spot_list, spots = set(), set(), []
+    for a in ast.walk(fn):
+        if isinstance(a, ast.Assign) and isinstance(a.value, ast.Call) and dotted(a.value.func).endswith('get_wflip_spot'):
+            for t in a.targets:
+                if isinstance(t, ast.Name):
+                    spot_addr.add(f'{t.id}.{addr_f}')
+                    spot_list.add(f'{t.id}.{list_f}')
+                    spots.append((f'{t.id}.{addr_f}', f'{t.id}.{list_f}'))
+                elif isinstance(t, ast.Tuple) and len(t.elts) == 3:
+                    spot_addr.add(norm(t.elts[addr_i]))
+                    spot_list.add(norm(t.elts[list_i]))
+                    spots.append((norm(t.elts[addr_i]), norm(t.elts[list_i])))
+    def through(e: ast.expr) -> str:
+        # read through locals, but not through the names the record was unpacked into
+        return norm(e) if norm(e) in spot_addr | spot_list else norm(_rn(fn, e))
+    stored = set()
+    for a in ast.walk(fn):
+        for t in (a.targets if isinstance(a, ast.Assign) else []):
+            if isinstance(t, ast.Subscript):
+                stored.add(through(t.value))
+    for c, e, is_spot in labels:
         txt = norm(e)
-        base = norm(arg.value) if isinstance(arg, ast.Attribute) and arg.attr == 'address' else None
-        stored = set()
-        for a in ast.walk(fn):
-            for t in (a.targets if isinstance(a, ast.Assign) else []):
-                if isinstance(t, ast.Subscript):
-                    v = _rn(fn, t.value)
-                    if isinstance(v, ast.Attribute) and v.attr == 'list':
-                        stored.add(norm(v.value))
-        ok = base is not None and base in spots and base in stored
-        rep.check(ok, 'C16.WFLIP-LABEL', f'insert_wflip_ops:{txt}', 'the address of the spot the op is stored into' if ok else
-                  f'the label gets `{txt}`, not the address of the spot returned by get_wflip_spot() ({sorted(spots)}): when a free pad slot is reused the '
+        got = through(e) + (f'.{addr_f}' if is_spot else '')
+        ok = any(got == a_ and l_ in stored for a_, l_ in spots)          # the address of a spot whose own list receives the op
+        rep.check(ok, 'C16.WFLIP-LABEL', f'insert_wflip_ops:{"label address" if ok else txt}', 'the address of the spot the op is stored into' if ok else
+                  f'the label gets `{txt}`, not the address of the spot returned by get_wflip_spot() ({sorted(spot_addr)}): when a free pad slot is reused the '
                   f'op lives in the code area while the label names the cursor of the wflip area', repo.site(ASM_, c), expected='<spot>.address')
 
 
